@@ -857,6 +857,13 @@ package zygo
 // the field check: success on a typed record means the key is a declared field name
 //@ func (*SexpHash).TypeCheckField
 //@ C17 ensures only-declared: r0 == nil && typedRecord(h) ==> declaredField(h, key)
+//@ ghost obsKnown := false @entry
+//@ ghost obsKnown := true @after call Type[0]
+//@ ghost obs := ret0 @after call Type[0]
+//@ C17 ensures value-has-declared-type: r0 == nil && typedRecord(h) ==> obsKnown && let(decl, h.GoStructFactory.UserStructDefn.FieldType[key.(*SexpSymbol).name],
+//@ |     obs == decl
+//@ |  || (obs == nil && (typeis(val, *SexpSentinel) || (typeis(val, *SexpArray) && len(val.(*SexpArray).Val) == 0)))
+//@ |  || (obs != nil && obs.RegisteredName == "[]" && strings.HasPrefix(decl.RegisteredName, "[]")))
 //@ C17 ensures not-a-symbol: r0 == KeyNotSymbol ==> !typeis(key, *SexpSymbol) && !typedRecord(h) && h.GoStructFactory == old(h.GoStructFactory)
 //@ C17 ensures keeps-definition: old(h.GoStructFactory != nil && h.GoStructFactory.UserStructDefn != nil) ==> h.GoStructFactory == old(h.GoStructFactory)
 
